@@ -178,7 +178,7 @@ class World:
         self.scratch_norm = [root]
         names = {}
         for k, pid in enumerate(pids):
-            name = "m%03d_%s.py" % (k, re.sub(r"\W", "_", pid)[-40:])
+            name = (op.get("names") or {}).get(pid) or "m%03d_%s.py" % (k, re.sub(r"\W", "_", pid)[-40:])
             names[pid] = os.path.join(root, name)
             with open(names[pid], "w") as f:
                 f.write(self.spec["programs"][pid])
